@@ -24,6 +24,10 @@ register_class("TinyFlux", "tinyflux.database", dict(
     _auto_index=TBool, _storage=STG, _index=TObj("Index"), _measurements=Cache, _open=TBool,
 ))
 
+q_and = z3.Function("q_and", sort_of(Q), sort_of(Q), sort_of(Q))  # a & b
+q_meas_eq = z3.Function("q_meas_eq", sort_of(TStr), sort_of(Q))  # MeasurementQuery() == m
+q_meas_ne = z3.Function("q_meas_ne", sort_of(TStr), sort_of(Q))  # MeasurementQuery() != m
+
 cnt = z3.Function("cnt", sort_of(SInt), z3.IntSort(), z3.IntSort())  # |A ∩ [0,i)|
 card = z3.Function("card_Int", sort_of(SInt), z3.IntSort())
 
@@ -46,11 +50,20 @@ def card_is_cnt(A, n):
     return z3.Implies(z3.And(n >= 0, forall([x], z3.Implies(z3.Select(A, x), z3.And(0 <= x, x < n)), patterns=[z3.Select(A, x)])), card(A) == cnt(A, n))
 
 
+def card_facts(A):
+    """ASSUMED facts about len() of a Python set: non-negative, and zero exactly for the empty set."""
+    x = z3.Int(fresh_name("x"))
+    w = z3.Int(fresh_name("member"))
+    return [card(A) >= 0, z3.Implies(card(A) > 0, z3.Select(A, w)),
+            z3.Implies(card(A) == 0, forall([x], z3.Not(z3.Select(A, x)), patterns=[z3.Select(A, x)])),
+            z3.Implies(forall([x], z3.Not(z3.Select(A, x)), patterns=[z3.Select(A, x)]), card(A) == 0)]
+
+
 def view_link(ix, stg):
     """the index's ghost view is the decoded storage contents"""
     V, items = ix.t["_S"].t, stg.t["items"].t
     j = z3.Int(fresh_name("j"))
-    return z3.And(l_len(V) == l_len(items), forall([j], z3.Implies(z3.And(0 <= j, j < l_len(items)), l_at(V, j) == dec(l_at(items, j))),
+    return z3.And(l_len(V) == l_len(items), forall([j], z3.Implies(z3.And(0 <= j, j < l_len(items), S.Tr(j)), l_at(V, j) == dec(l_at(items, j))),
                                                    patterns=[l_at(V, j), l_at(items, j)]))
 
 
@@ -73,18 +86,21 @@ def selm(m, p):
     return z3.Or(z3.Not(truthy_opt_str(m)), meas(p) == o_val(m.t))
 
 
+selset = z3.Function("selected", sort_of(LItem), sort_of(Q), sort_of(TOpt(TStr)), sort_of(SInt))  # ghost: the selected positions
+
+
 def selected_set(db_old, query, measurement, name="Asel"):
-    """ghost definition: A = { i | 0 <= i < n, filter(i), sem(query, S[i]) }"""
+    """ghost definition: A = { i | 0 <= i < n, filter(i), sem(query, S[i]) } as a function of (items, query, filter)"""
     items = db_old.t["_storage"].t["items"].t
-    A = z3.Const(fresh_name(name), sort_of(SInt))
+    A = selset(items, query.t, measurement.t)
     i = z3.Int(fresh_name("i"))
     body = z3.Select(A, i) == z3.And(0 <= i, i < l_len(items), selm(measurement, dec(l_at(items, i))), sem(query.t, dec(l_at(items, i))))
-    return Val(SInt, A), [forall([i], body, patterns=[z3.Select(A, i), l_at(items, i)])]
+    return Val(SInt, A), [forall([i], body, patterns=[z3.Select(A, i), l_at(items, i)]), card_is_cnt(A, l_len(items))] + card_facts(A)
 
 
 def count_lemmas():
     """Monotonicity of the counting function (DESIGN 3.6). Proved by induction in
-    props/lemmas (base + step obligations); used here as axioms."""
+    contracts/lemmas.py (base + step obligations, run as `lemma:count`); used here as axioms."""
     A = z3.Const("ax_A", sort_of(SInt))
     a, b, i = z3.Int("ax_a"), z3.Int("ax_b"), z3.Int("ax_i2")
     return [
@@ -97,17 +113,36 @@ def count_lemmas():
 S.THEORIES["count_lemmas"] = count_lemmas()
 
 
-def enumerates(R, src, A, items, n_R=None):
-    """R lists the decoded items at the positions of A exactly once each: src(a) is the
-    storage position of R[a]."""
-    a, b, i = z3.Int(fresh_name("a")), z3.Int(fresh_name("b")), z3.Int(fresh_name("i"))
+def count_lemmas2():
+    """Further counting lemmas (DESIGN 3.6), proved by induction in contracts/lemmas.py."""
+    A = z3.Const("ax_A", sort_of(SInt))
+    a, b, p, n = z3.Int("ax_a"), z3.Int("ax_b"), z3.Int("ax_p"), z3.Int("ax_n")
+    i = z3.Int("ax_i3")
+    return [
+        # Lipschitz: at most one member per position
+        forall([A, a, b], z3.Implies(z3.And(0 <= a, a <= b), cnt(A, b) - cnt(A, a) <= b - a), patterns=[z3.MultiPattern(cnt(A, a), cnt(A, b))]),
+        # rank is strictly increasing over non-members
+        forall([A, i, b], z3.Implies(z3.And(0 <= i, i < b, z3.Not(z3.Select(A, i))), i - cnt(A, i) < b - cnt(A, b)), patterns=[z3.MultiPattern(z3.Select(A, i), cnt(A, b))]),
+        # rank i - cnt(A, i) is onto [0, n - cnt(A, n)) over the non-members below n
+        forall([A, n, p], z3.Implies(z3.And(0 <= p, p < n - cnt(A, n), S.Tr(p)),
+                                     z3.Exists([i], z3.And(0 <= i, i < n, z3.Not(z3.Select(A, i)), i - cnt(A, i) == p))),
+               patterns=[z3.MultiPattern(cnt(A, n), S.Tr(p))]),
+    ]
+
+
+S.THEORIES["count_lemmas2"] = count_lemmas2()
+
+
+def enumerates(R, src, rank, A, items, n_R=None):
+    """R lists the decoded items at the positions of A exactly once each: src(a) is the storage
+    position of R[a] and rank(i) the place of storage position i in R (mutually inverse)."""
+    a, i = z3.Int(fresh_name("a")), z3.Int(fresh_name("i"))
     nR = l_len(R) if n_R is None else n_R
     return [
-        ("elements_are_selected", forall([a], z3.Implies(z3.And(0 <= a, a < nR), z3.And(z3.Select(A, src(a)), l_at(R, a) == dec(l_at(items, src(a))))),
-                                         patterns=[l_at(R, a), src(a)])),
-        ("no_duplicates", forall([a, b], z3.Implies(z3.And(0 <= a, a < b, b < nR), src(a) != src(b)), patterns=[z3.MultiPattern(src(a), src(b))])),
-        ("every_selected_listed", forall([i], z3.Implies(z3.And(z3.Select(A, i), S.Tr(i)), z3.Exists([a], z3.And(0 <= a, a < nR, src(a) == i))),
-                                         patterns=[z3.Select(A, i)])),
+        ("elements_are_selected_once", forall([a], z3.Implies(z3.And(0 <= a, a < nR), z3.And(z3.Select(A, src(a)), l_at(R, a) == dec(l_at(items, src(a))), rank(src(a)) == a)),
+                                              patterns=[l_at(R, a), src(a)])),
+        ("every_selected_listed", forall([i], z3.Implies(z3.Select(A, i), z3.And(0 <= rank(i), rank(i) < nR, src(rank(i)) == i)),
+                                         patterns=[z3.Select(A, i), rank(i)])),
     ]
 
 
